@@ -523,4 +523,16 @@ def scenario_histories(rng, raw=False):
         h.update("T", ups=[("K", 7)], cond=K(2)); step(h, j)                            # accepted: order changes
         h.insert("T", rows=[[8, "n1"], [9, "n2"], [8, "dup"]]); step(h, j)              # rejected batch with new strings
         out.append(("key-updates-%d" % j, h))
+        # one UPDATE assigning the same column more than once: every assignment is validated, the last one is stored
+        h = History(rng, j)
+        h.add_table("T", [mk("K", "i16", pk=True), mk("N", "i16", null=True, rng=(0, 10)), mk("S", ("str", 4), null=True, cat="Identifier")])
+        h.insert("T", rows=[[1, 5, "ab"], [2, None, None]]); step(h, j)
+        h.update("T", ups=[("N", 7), ("N", 70000)], cond=None); step(h, j)             # valid, then not storable
+        h.update("T", ups=[("N", 3), ("N", 11)], cond=K(1)); step(h, j)                 # valid, then outside the declared range
+        h.update("T", ups=[("S", "ok"), ("S", "not an identifier")], cond=None); step(h, j)
+        h.update("T", ups=[("S", None), ("S", 3)], cond=None); step(h, j)               # null, then an integer in a string column
+        h.update("T", ups=[("N", 99), ("N", 4)], cond=None); step(h, j)                 # invalid first, valid last: still refused
+        h.update("T", ups=[("N", 1), ("N", 2), ("S", "x"), ("N", 9)], cond=K(2)); step(h, j)   # all valid: the last one wins
+        h.update("T", ups=[("K", 2), ("K", 3)], cond=K(1)); step(h, j)                  # key assigned twice: 1 -> 3
+        out.append(("repeat-assign-%d" % j, h))
     return out
